@@ -66,6 +66,10 @@ type Runner struct {
 	Faulted bool // a fault or crash was injected in this case
 	Params  map[string]string
 	Cmds    []string // command lines executed so far in this case (a replayable script)
+	// StaleDelete: some releaseByHandle had its block compare-and-delete answered
+	// NotFound and went on to decrement the handle (known defect, see known_findings).
+	StaleDelete bool
+	lastRead    map[int]map[string]string // tid -> block path -> value last read
 
 	// property hooks
 	OnStep      func(r *Runner, st *Step, ctx *ThreadCtx)
@@ -222,6 +226,7 @@ func (r *Runner) doNew(p map[string]string) {
 	r.Sc = NewSched(e.S)
 	r.Sc.Static = IsStaticPath
 	r.Ctx, r.Res, r.ended, r.Faulted, r.Params = map[int]*ThreadCtx{}, map[int]*OpResult{}, map[int]bool{}, false, p
+	r.StaleDelete, r.lastRead = false, nil
 	var sizes []int
 	for _, b := range e.Blocks {
 		ones, bits := b.Mask.Size()
@@ -435,6 +440,25 @@ func (r *Runner) doStep(tid int, fault string) {
 	}
 	ctx := r.Ctx[tid]
 	op, out := r.Env.StepLine(st, ctx)
+	if _, isBlk := st.Key.(model.BlockKey); isBlk {
+		if r.lastRead == nil {
+			r.lastRead = map[int]map[string]string{}
+		}
+		if st.Verb == VGet && st.Outcome == OOK && st.Eff.Before != nil {
+			if r.lastRead[tid] == nil {
+				r.lastRead[tid] = map[string]string{}
+			}
+			r.lastRead[tid][st.Path] = *st.Eff.Before
+		}
+		if st.Verb == VDelete && st.Outcome == ONotFound && ctx != nil && ctx.Op == "releasebyhandle" {
+			if v, ok := r.lastRead[tid][st.Path]; ok {
+				n := r.Env.AbsBlockOf(v).LiveCount(ctx.Handle)
+				op = strings.Replace(op, "ev=-", fmt.Sprintf("ev=stale h=%d n=%d", ctx.Handle, n), 1)
+				r.StaleDelete = true
+				r.H.Count("stale-delete")
+			}
+		}
+	}
 	r.H.Op(op, out)
 	r.H.Count("call:" + st.Verb + ":" + strings.Fields(r.keyKind(st))[0] + ":" + strings.TrimSuffix(st.Outcome, "+crashed"))
 	if r.OnStep != nil {
